@@ -701,7 +701,7 @@ def redirect_call(fw, call_node, helper, rule="W9-R-std-call"):
     fw.replace(call_node["func_span"][0], call_node["func_span"][1], "crate::verif_prelude::" + helper, rule)
 
 
-def outline_closure_body(ctx, fw, cnode, name, params, args, rtype, mode="V", requires=(), ensures=(), tags=(), unit=None, ret="res"):
+def outline_closure_body(ctx, fw, cnode, name, params, args, rtype, mode="V", requires=(), ensures=(), tags=(), unit=None, ret="res", vis=""):
     """W5 (closure form): the body block of a closure becomes a free function `name`; the closure only calls it.
     Used to put the arithmetic inside `iter.try_fold(init, |acc, x| { .. })` under contract although the
     iterator adapter itself cannot be specified."""
@@ -715,7 +715,7 @@ def outline_closure_body(ctx, fw, cnode, name, params, args, rtype, mode="V", re
     im = fw._impl_of(top)
     target = (im or top)["span"][1]
     unit = unit or "%s::%s" % (modpath(fw.rel), name)
-    pre = "\nverus!{\n%sfn %s(%s) -> (%s: %s)\n" % ("#[verifier::external_body]\n" if mode == "T" else "", name, params, ret, rtype)
+    pre = "\nverus!{\n%s%sfn %s(%s) -> (%s: %s)\n" % ("#[verifier::external_body]\n" if mode == "T" else "", vis, name, params, ret, rtype)
     fw.move(s, e, target, pre=pre, suf="\n}\n} // verus!\n", rule="W5", what="body of a closure in %s as %s" % (fw.fn_qualname(top), name), left=" %s(%s) " % (name, args))
     utags = set(tags)
     ftags = utags - {"C12"}
